@@ -611,15 +611,14 @@ def tasks(tier, seed=0):
             for s_ in ("cached", "forked"):
                 ts.append(("history_task", dict(graph=cfg_name(kind, kw), start=s_, depth=2, alphabet=sorted({"put", "latent"}), model=(kind, kw))))
     else:
-        for g in ("diamond_late_root", "two_roots_grandchild", "hyper_fed"):
-            for s_ in starts:
-                split(g, s_, 4, FULL)
-        for g in ("chain", "fork", "diamond"):
+        for g in graphs_t:
             for s_ in starts:
                 split(g, s_, 3, FULL)
         for g in ("diamond_late_root", "two_roots_grandchild"):
             for s_ in ("set", "forked"):
-                split(g, s_, 5, REDUCED)
+                split(g, s_, 4, FULL)
+        split("two_roots_grandchild", "forked", 5, REDUCED)
+        split("two_roots_grandchild", "set", 4, {"copy"})
         for kind, kw in [("logistic", dict(features=["a", "b"], source_dimension=1)), ("linear", dict(features=["a", "b"], source_dimension=0)),
                          ("shared_speed_logistic", dict(features=["a", "b"], source_dimension=1)), ("joint", dict(features=["a"], source_dimension=0, nb_events=1))]:
             for s_ in ("set", "cached", "forked"):
